@@ -111,6 +111,22 @@ Theorem node_from_path_variants : forall bsearch stored, negb (bsearch && stored
 Proof. exact node_from_path_finds_listed_gen2. Qed.
 Print Assumptions node_from_path_variants.
 
+(* the hypotheses are what backup produces: a tree made with Node::new_node (stored name =
+   escape_filename(name)) from entries sorted by name is sorted_by_raw and names_escaped ... *)
+Theorem backup_tree_is_wellformed : forall entries, entries_ok entries ->
+  sorted_by_raw (backup_tree entries) /\ names_escaped (backup_tree entries).
+Proof. exact backup_tree_wf. Qed.
+Print Assumptions backup_tree_is_wellformed.
+
+(* ... and every source entry is listed under its own (raw) name and found under that name *)
+Theorem backup_names_listed_and_found : forall R fuel root entries e,
+  wf_repo_sorted R -> R root = Some (backup_tree entries) -> entries_ok entries -> In e entries ->
+  In ([entry_name e], mk_node e) (ls (S fuel) R root) /\
+  forall bsearch stored, negb (bsearch && stored) = true ->
+    node_from_path bsearch stored R root [entry_name e] = Some (mk_node e).
+Proof. exact ProofsTreeBS.backup_names_listed_and_found. Qed.
+Print Assumptions backup_names_listed_and_found.
+
 (* the scan comparing node.name() needs nothing but distinct names (no assumption on how the
    names are stored: also names that fail to unescape are found under their fallback) *)
 Theorem node_from_path_scan_finds_listed : forall R fuel root path n, wf_repo R ->
